@@ -22,6 +22,7 @@ func unknownToken(form int) (tok string, name string) {
 		vAssume(!strings.HasPrefix("cmdopt", x))
 		vAssume(!strings.HasPrefix("sopt", x))
 		vAssume(!strings.HasPrefix("list", x))
+		vAssume(!strings.HasPrefix("k", x))
 		return "--" + x, x
 	case 1: // --x=w
 		x := vString("x")
@@ -33,9 +34,12 @@ func unknownToken(form int) (tok string, name string) {
 		vAssume(!strings.HasPrefix("cmdopt", x))
 		vAssume(!strings.HasPrefix("sopt", x))
 		vAssume(!strings.HasPrefix("list", x))
+		vAssume(!strings.HasPrefix("k", x))
 		return "--" + x + "=" + w, x
-	default: // -y : one letter, the same reading in all three modes
+	case 2: // -y : one letter, the same reading in all three modes
 		return "-y", "y"
+	default: // the lone dash, not declared here
+		return "-", "-"
 	}
 }
 
@@ -43,8 +47,8 @@ func VerifC08_Placement() {
 	vNativeReset()
 	mode := vInt("mode", 0, 2)
 	um := vInt("um", 0, 2)
-	place := vInt("place", 0, 7)
-	form := vInt("form", 0, 2)
+	place := vInt("place", 0, 9)
+	form := vInt("form", 0, 3)
 	u, name := unknownToken(form)
 	v := positional("v")
 	q := positional("q", "cmd", "wrap")
@@ -52,7 +56,8 @@ func VerifC08_Placement() {
 	opt := New()
 	setMode(opt, mode)
 	setUnknown(opt, um)
-	flag := opt.Bool("flag", false)
+	flag := opt.Bool("flag", false, opt.Alias("f"))
+	kflag := opt.Bool("k", false)
 	str := opt.String("str", "d")
 	sopt := opt.StringOptional("sopt", "dso")
 	list := opt.StringSlice("list", 1, 3)
@@ -92,6 +97,16 @@ func VerifC08_Placement() {
 	case 7:
 		// nor as a further value of a multi-value option
 		args, want = []string{"--list", v, u}, []string{u}
+	case 8:
+		// Bundling: an unknown letter in front of known ones does not hide them
+		vAssume(mode == 1 && form == 2)
+		u, name = "-yfk", "y"
+		args, want = []string{u}, []string{u}
+	case 9:
+		// Bundling: two different unknown letters in one token are both reported
+		vAssume(mode == 1 && form == 2)
+		u, name = "-yfz", "y"
+		args, want = []string{u}, []string{u}
 	}
 	vPhase("run")
 	remaining, err := opt.Parse(args)
@@ -136,6 +151,13 @@ func VerifC08_Placement() {
 			vAssert("around/optional-keeps-default", *sopt == "dso" && opt.Called("sopt"))
 		case 7:
 			vAssert("around/list", eqStrs(*list, []string{v}))
+		case 8:
+			vAssert("around/bundled-known-letters", *flag && *kflag)
+		case 9:
+			vAssert("around/bundled-known-letter", *flag)
+			if effUm == 1 {
+				vAssert("warn/second-unknown-letter-named", strings.Contains(warned, "'z'"))
+			}
 		}
 	}
 }
